@@ -37,6 +37,7 @@ import (
 	"github.com/atlassian/gostatsd/pkg/lambda"
 	"github.com/atlassian/gostatsd/pkg/statsd"
 	"github.com/atlassian/gostatsd/pkg/transport"
+	"github.com/atlassian/gostatsd/pkg/verifhooks"
 
 	"verifharness/internal/hx"
 )
@@ -56,13 +57,17 @@ type invT struct {
 
 type caseT struct {
 	initOK bool
-	invs   []invT
+	// how the server fails inside the start-up window (initOK false): "fail" the real statsd.Server with an
+	// unknown mode; "failD" / "failC" / "failP" / "failN" a stub server whose Run returns at once an error that
+	// wraps context.DeadlineExceeded / wraps context.Canceled / is plain / is nil, while the manager's context is alive
+	failKind string
+	invs     []invT
 }
 
 func renderCase(c *caseT) string {
 	items := []string{"cfg ok"}
 	if !c.initOK {
-		items[0] = "cfg fail"
+		items[0] = "cfg " + c.failKind
 	}
 	for _, iv := range c.invs {
 		items = append(items, fmt.Sprintf("inv %d %s %d %d %d %d %d %d", iv.ndp, iv.outcome, iv.lat, iv.pre, iv.post, iv.nb, iv.na, iv.late))
@@ -75,7 +80,12 @@ func parseCase(line string) (*caseT, error) {
 	if len(parts) == 0 || len(parts[0]) != 2 || parts[0][0] != "cfg" {
 		return nil, fmt.Errorf("bad head")
 	}
-	c := &caseT{initOK: parts[0][1] == "ok"}
+	c := &caseT{initOK: parts[0][1] == "ok", failKind: parts[0][1]}
+	switch c.failKind {
+	case "ok", "fail", "failD", "failC", "failP", "failN":
+	default:
+		return nil, fmt.Errorf("bad cfg")
+	}
 	for _, it := range parts[1:] {
 		if len(it) == 0 {
 			continue
@@ -101,6 +111,31 @@ func parseCase(line string) (*caseT, error) {
 	return c, nil
 }
 
+// stubServer fails inside the start-up window the way a server does whose own initialisation (a cloud
+// provider, a dial) ran into a time-out or gave up: the error's kind is the case's, the manager's context is alive.
+type stubServer string
+
+func (k stubServer) Run(ctx context.Context) error {
+	if ctx.Err() != nil {
+		return ctx.Err()
+	}
+	switch string(k) {
+	case "failD":
+		return fmt.Errorf("unable to start server: %w", &timeoutErr{})
+	case "failC":
+		return fmt.Errorf("unable to start server: %w", context.Canceled)
+	case "failN":
+		return nil
+	}
+	return fmt.Errorf("unable to start server: no route to host")
+}
+
+// timeoutErr is what net/http reports for Client.Timeout: it is a context.DeadlineExceeded
+type timeoutErr struct{}
+
+func (*timeoutErr) Error() string        { return "Client.Timeout exceeded while awaiting headers" }
+func (*timeoutErr) Is(target error) bool { return target == context.DeadlineExceeded }
+
 // ---------------------------------------------------------------------------------------- log
 
 type entry struct {
@@ -118,10 +153,18 @@ type hist struct {
 	lat     int
 	tries   map[string]int
 	ierrMsg string
+	// ending: the harness has begun to cancel the extension's context.  An exit-error report made after that
+	// point tells how the manager copes with being cancelled (e.g. while it still reads the SHUTDOWN answer),
+	// which the property does not speak about and which depends on timing: it is not part of the history.
+	ending bool
 }
 
 func (h *hist) add(tok string) {
 	h.mu.Lock()
+	if tok == "xerr" && h.ending {
+		h.mu.Unlock()
+		return
+	}
 	h.log = append(h.log, entry{tok: tok})
 	h.mu.Unlock()
 	h.poke()
@@ -326,7 +369,10 @@ func runHistory(c *caseT) (string, error) {
 		_, _ = w.Write([]byte(`{"status":"OK"}`))
 	})
 	mux.HandleFunc("/2020-01-01/extension/exit/error", func(w http.ResponseWriter, r *http.Request) {
-		_, _ = io.Copy(io.Discard, r.Body)
+		b, _ := io.ReadAll(r.Body)
+		if os.Getenv("C20_DEBUG") != "" {
+			fmt.Fprintf(os.Stderr, "xerr body: %.300s\n", b)
+		}
 		h.add("xerr")
 		w.WriteHeader(http.StatusAccepted)
 		_, _ = w.Write([]byte(`{"status":"OK"}`))
@@ -370,19 +416,28 @@ func runHistory(c *caseT) (string, error) {
 		EstimatedTags:     1,
 		InternalNamespace: "statsd",
 	}
-	ext, err := lambda.NewExtension(quiet, server, lambda.Options{
-		RuntimeAPI:        strings.TrimPrefix(runtimeAPI.URL, "http://"),
-		ExecutableName:    "gostatsd-extension",
-		EnableManualFlush: true,
-		TelemetryAddr:     teleAddr,
-	})
-	if err != nil {
-		return "SETUP_ERROR " + err.Error(), nil
+	var ext interface{ Run(context.Context) error }
+	if !c.initOK && c.failKind != "fail" {
+		ext = verifhooks.NewLambdaManager(quiet, strings.TrimPrefix(runtimeAPI.URL, "http://"), "gostatsd-extension", teleAddr, stubServer(c.failKind))
+	} else {
+		e, err := lambda.NewExtension(quiet, server, lambda.Options{
+			RuntimeAPI:        strings.TrimPrefix(runtimeAPI.URL, "http://"),
+			ExecutableName:    "gostatsd-extension",
+			EnableManualFlush: true,
+			TelemetryAddr:     teleAddr,
+		})
+		if err != nil {
+			return "SETUP_ERROR " + err.Error(), nil
+		}
+		ext = e
 	}
 	runDone := make(chan error, 1)
 	go func() { runDone <- ext.Run(ctx) }()
 
 	finish := func(suffix string) (string, error) {
+		h.mu.Lock()
+		h.ending = true
+		h.mu.Unlock()
 		cancel()
 		select {
 		case <-runDone:
@@ -653,7 +708,8 @@ func gen(args []string) {
 		maxInv = 20
 	}
 	for i := 0; i < n; i++ {
-		c := &caseT{initOK: !r.Chance(1, 12)}
+		c := &caseT{initOK: !r.Chance(1, 8)}
+		c.failKind = hx.Pick(r, []string{"fail", "failD", "failC", "failP", "failN"})
 		ninv := r.Range(0, maxInv)
 		if r.Chance(1, 3) {
 			ninv = r.Range(1, 3)
@@ -705,7 +761,7 @@ func gen(args []string) {
 		}
 		st.Case(line, c.initOK && nontrivial)
 		if !c.initOK {
-			st.Hit("init=fail")
+			st.Hit("init=" + c.failKind)
 		} else {
 			st.Hit("init=ok")
 		}
